@@ -76,6 +76,21 @@ def gen_cases(ctx):
             perms = cd.all_orders(names) if len(names) <= 6 else [rng.sample(names, len(names)) for _ in range(200)]
             for k, order in enumerate(perms):
                 cases.append({"id": "f%d_%d" % (j, k), "naccts": 3, "blocks": blocks, "arrivals": list(order)})
+    # forged numbers on side branches: a child of a non-root side block claiming a number above the best height
+    # (gather is the only place that checks the numbering of a side-branch block against its parent)
+    for j, (la, lb, gap) in enumerate([(3, 1, 1), (3, 2, 1), (2, 1, 2), (4, 2, 1), (3, 1, 3)] if quick else
+                                      [(la, lb, gap) for la in (2, 3, 4) for lb in (1, 2, 3) for gap in (1, 2, 3) if lb < la]):
+        blocks = cd.two_branches(j % 2, la, lb, shared=False)
+        last_b = "B%d" % (lb - 1)
+        no = (j % 2) + la + gap                      # above the best height (prefix + la)
+        blocks.append({"name": "X", "parent": last_b, "txs": [{"from": 0, "to": 2, "amt": 1}], "bad": "", "no": no})
+        blocks.append({"name": "X2", "parent": "X", "txs": [], "bad": ""})
+        names = [b["name"] for b in blocks]
+        cases.append({"id": "gap%d" % j, "naccts": 3, "blocks": blocks, "arrivals": list(names)})
+        if not quick:
+            o = list(names)
+            rng.shuffle(o)
+            cases.append({"id": "gap%d_s" % j, "naccts": 3, "blocks": blocks, "arrivals": o})
     return cases
 
 
